@@ -97,6 +97,9 @@ def handle (kind : String) (args : List String) (impl : String) : String :=
     let r := C18.handle "c18.step" ["3", v, "30"] impl
     let sp := specBad impl
     if sp != "" then s!"SPEC {sp} impl={impl}" else r
+  | "c11.cycle", [] =>
+    -- the proxy keeps serving other connections (and can be stopped), whatever a backend's redirections say
+    if impl == "other=served stop=ok" then "ok" else s!"SPEC other-connections-not-served-after-a-redirection-cycle impl={impl}"
   | "c11.session", [_] =>
     let sp := if impl.startsWith "first=" then (if impl.endsWith "second=pong" then "" else "other-connections-not-served") else
       (if specBad impl != "" then specBad impl else "session-wedged")
